@@ -180,6 +180,16 @@ class Ctx:
         self.assumptions = []
         self.fixture_controls = {'positive_fired': 0, 'negative_silent': 0, 'total': 0, 'failed': []}
 
+    def pfn(self, pat):
+        """function of quinn-proto by pattern (fail-closed)"""
+        return self.facts.fn(pat, 'quinn_proto')
+
+    def qfn(self, pat):
+        return self.facts.fn(pat, 'quinn')
+
+    def ufn(self, pat):
+        return self.facts.fn(pat, 'quinn_udp')
+
     def _rec(self, rule, instance, verdict, fn, where, detail):
         o = {'rule': '%s.%s' % (self.pid, rule), 'instance': instance, 'function': fn, 'where': where,
              'verdict': verdict, 'detail': detail}
